@@ -56,7 +56,7 @@ const POOL: usize = 5;
 const CANDIDATES: usize = 4096;
 /// a stake no f64 can carry (2^53 + 1): a lossy numeric route changes it
 const BIG: u64 = (1u64 << 53) + 1;
-const STAKES: [u64; 4] = [1, 2, 10, BIG];
+const STAKES: [u64; 5] = [1, 2, 3, 10, BIG];
 
 const PATHS: [&str; 4] = ["stm", "signer", "aggregator", "client"];
 const STM_ENCODINGS: [&str; 4] = ["mem", "raw-bytes", "json-hex", "bytes-hex"];
@@ -208,6 +208,27 @@ impl World {
 // ---------------------------------------------------------------------------------------------
 // one evaluation = one registration in a given order on one route with one input encoding
 
+/// what a registered member gets when it asks for its signer and signs
+#[derive(Clone, Debug, Eq, PartialOrd, Ord)]
+enum Slot {
+    /// the slot its signature carries
+    At(u64),
+    /// a signer, but no lottery won
+    NoSignature,
+    /// no signer at all (the message is not compared)
+    NoSigner(String),
+}
+
+impl PartialEq for Slot {
+    fn eq(&self, o: &Slot) -> bool {
+        match (self, o) {
+            (Slot::At(a), Slot::At(b)) => a == b,
+            (Slot::NoSignature, Slot::NoSignature) | (Slot::NoSigner(_), Slot::NoSigner(_)) => true,
+            _ => false,
+        }
+    }
+}
+
 #[derive(Clone, Debug, PartialEq, Eq)]
 struct Out {
     /// `AggregateVerificationKeyForConcatenation::to_bytes()`
@@ -216,7 +237,7 @@ struct Out {
     json_hex: String,
     total: u64,
     /// (party, slot carried by its signature), sorted by party; None on routes that do not sign
-    slots: Option<Vec<(usize, Option<u64>)>>,
+    slots: Option<Vec<(usize, Slot)>>,
 }
 type Res = Result<Out, String>;
 
@@ -224,7 +245,7 @@ fn es<E: std::fmt::Display>(what: &'static str) -> impl Fn(E) -> String {
     move |e| format!("{what}: {e:#}")
 }
 
-fn out_of(avk: &AggregateVerificationKeyForConcatenation<D>, slots: Option<Vec<(usize, Option<u64>)>>) -> Res {
+fn out_of(avk: &AggregateVerificationKeyForConcatenation<D>, slots: Option<Vec<(usize, Slot)>>) -> Res {
     Ok(Out {
         avk: avk.to_bytes().map_err(es("avk to_bytes"))?,
         json_hex: ProtocolKey::new(avk.clone()).to_json_hex().map_err(es("avk to_json_hex"))?,
@@ -275,10 +296,16 @@ fn eval_stm(w: &World, order: &[Member], enc: &str, with_slots: bool) -> Res {
             for &(i, s) in order {
                 let mut init = w.parties[i].stm_init.clone();
                 init.stake = s;
-                let signer = init.try_create_signer::<D>(&closed).map_err(es("try_create_signer"))?;
-                slots.push((i, signer.sign(&w.msg_bytes).map(|sig| sig.signer_index)));
+                let slot = match init.try_create_signer::<D>(&closed) {
+                    Ok(signer) => match signer.sign(&w.msg_bytes) {
+                        Some(sig) => Slot::At(sig.signer_index),
+                        None => Slot::NoSignature,
+                    },
+                    Err(e) => Slot::NoSigner(format!("try_create_signer: {e:#}")),
+                };
+                slots.push((i, slot));
             }
-            slots.sort();
+            slots.sort_by_key(|x| x.0);
             Some(slots)
         } else {
             None
@@ -364,18 +391,22 @@ fn eval_sb(w: &World, order: &[Member], enc: &str, with_slots: bool) -> SbOut {
             if with_slots {
                 for &(i, s) in order {
                     let p = &w.parties[i];
-                    let single = sb
-                        .restore_signer_from_initializer(p.party_id.clone(), p.inits[&s].clone())
-                        .map_err(es("restore_signer_from_initializer"))?;
+                    let single = match sb.restore_signer_from_initializer(p.party_id.clone(), p.inits[&s].clone()) {
+                        Ok(single) => single,
+                        Err(e) => {
+                            slots.push((i, Slot::NoSigner(format!("restore_signer_from_initializer: {e:#}"))));
+                            continue;
+                        }
+                    };
                     match single.sign(&w.msg).map_err(es("SingleSigner::sign"))? {
                         Some(sig) => {
-                            slots.push((i, Some(sig.signature.signer_index)));
+                            slots.push((i, Slot::At(sig.signature.signer_index)));
                             sigs.push((i, sig));
                         }
-                        None => slots.push((i, None)),
+                        None => slots.push((i, Slot::NoSignature)),
                     }
                 }
-                slots.sort();
+                slots.sort_by_key(|x| x.0);
             }
             let out = out_of(avk.to_concatenation_aggregate_verification_key(), with_slots.then_some(slots))?;
             Ok((out, sigs))
@@ -591,7 +622,7 @@ fn check_set(w: &World, set: &[Member], all_encodings_everywhere: bool) -> Repor
         match &e.res {
             Ok(o) => {
                 let signs = e.path == "stm" || e.path == "signer";
-                let all_signed = o.slots.as_ref().map(|s| s.iter().all(|x| x.1.is_some())).unwrap_or(false);
+                let all_signed = o.slots.as_ref().map(|s| s.iter().all(|x| matches!(x.1, Slot::At(_)))).unwrap_or(false);
                 if !signs || all_signed {
                     rep.nontrivial(&(set, e.path, e.enc, &perms[e.perm]));
                     ok_evals += 1;
@@ -674,7 +705,7 @@ fn check_set(w: &World, set: &[Member], all_encodings_everywhere: bool) -> Repor
             "route": "signer",
             "aggregate_key": hex::encode(&o.avk),
             "total_stake": o.total.to_string(),
-            "slots (party, slot)": o.slots,
+            "slots (party, slot)": format!("{:?}", o.slots.as_ref().unwrap_or(&vec![])),
             "permutations": perms.len(),
             "evaluations_of_this_set": evals.len(),
         }));
@@ -737,10 +768,12 @@ fn level_b_sets(thorough: bool) -> Vec<Vec<Member>> {
         let mut stakes = arrangements(&[1, 1, 2, 10], n);
         if thorough {
             stakes.extend(words(&[1, 2, 10], n));
-            stakes.extend(arrangements(&[1, 1, 2, BIG], n));
-            stakes.sort();
-            stakes.dedup();
         }
+        if thorough || n <= 2 {
+            stakes.extend(arrangements(&[1, 1, 2, BIG], n));
+        }
+        stakes.sort();
+        stakes.dedup();
         out.extend(with_stakes(&members, &stakes));
     }
     // the heavy ones first (load balance); stable, so the order is deterministic
@@ -750,7 +783,7 @@ fn level_b_sets(thorough: bool) -> Vec<Vec<Member>> {
 
 /// Level A family: every set over the whole pool (sizes 1..=5) and the whole stake alphabet
 fn level_a_sets(thorough: bool) -> Vec<Vec<Member>> {
-    let alphabet: &[u64] = if thorough { &STAKES } else { &STAKES[..3] };
+    let alphabet: &[u64] = if thorough { &STAKES } else { &STAKES[..4] };
     let mut out = vec![];
     for members in subsets_of_pool(1, POOL) {
         out.extend(with_stakes(&members, &words(alphabet, members.len())));
